@@ -37,7 +37,9 @@ THEOREMS = [_T + n for n in [
     # follow-up 3: construction paths and histories
     "C19_extras_eq_iff_perm", "C19_extras_canonical", "C19_term_paths", "C19_order_hash_breaks",
     "C19_call_binding", "C19_find_call_styles",
-    "C19_history_cache_sound", "C19_history_cache_stale", "C19_history_hash_now", "C19_history_hash_stale"]]
+    "C19_history_cache_sound", "C19_history_cache_stale", "C19_history_hash_now", "C19_history_hash_stale",
+    # follow-up (wave 5): object identities
+    "C19_identity_lookup_sound", "C19_identity_lookup_breaks"]]
 LEVEL_TEXT = ("Lean theorems over a model of the encoder as the Python dict it is (insertion-ordered association list, "
               "later equal key overwrites; proved equal to a hash table that compares hashes first whenever ==-equal keys "
               "hash equally): for duplicate-free vocabularies encode = i iff the tag is the i-th vocabulary "
@@ -66,7 +68,14 @@ LEVEL_TEXT = ("Lean theorems over a model of the encoder as the Python dict it i
               "memoised hash on every change hashes as its content now while cached_property-style memos go stale. Tied by "
               "all ordered pairs of construction recipes per hashable class (constructor, model_validate, JSON, copies, "
               "extras in every order, explicit None), histories of calls on shared / reused / changed objects judged step "
-              "by step by the pure model, size thresholds and float32 store boundaries.")
+              "by step by the pure model, size thresholds and float32 store boundaries. Follow-up (wave 5): object identities - "
+              "an encoder that recognises a term by id() first and then consults only the values registered under that object "
+              "is the encoder whenever 'same object as the probe's term' and 'equal term content' coincide on the vocabulary, and answers none for the tag on "
+              "the term object of vocabulary tag 0 with the value of tag 1 when equal terms are separate objects; tied by laying "
+              "out, for vocabularies over equal terms, every combination of shared / separate term objects with the probe's term "
+              "object fresh / the equal vocabulary tag's / another vocabulary tag's and the probe a new Tag / a "
+              "model_copy(update) / the vocabulary's own object / a shallow copy / a subclass instance (same expected answer, "
+              "the model being about content).")
 LEVEL_NOTE = ("Trusted: Lean kernel; CPython dict/tuple/str/float/UUID hashing and equality (probing order of dict "
               "abstracted: every entry with the probe's hash is compared); pydantic BaseModel.__eq__ is "
               "observed, not modelled from source; numpy float32 store (its value is computed by the harness with "
@@ -76,7 +85,9 @@ LEVEL_NOTE = ("Trusted: Lean kernel; CPython dict/tuple/str/float/UUID hashing a
               "hash traces cannot see id()/type() of a field value (identity dependence is observed on two instances); a "
               "vocabulary list or vocabulary tag objects changed by the caller while an encoder built on them is alive "
               "(SimpleEncoder keeps the caller's sequence: decode follows it, encode the snapshot; noted, not compared); "
-              "subclasses of Tag; model_construct. "
+              "model_construct; subclasses of Tag that add fields (a subclass that adds nothing is generated and is expected to "
+              "be encoded like the Tag of the same term and value, which is what the (term, value) key does, although "
+              "pydantic's == between the two classes is False). "
               "Model tied to the code by regenerated obligations and generator-bounded correspondence.")
 TECHNIQUE = ("Lean 4 proof over model (dict as association list = hash table under the contract, fill loops over any "
              "encoder with numpy's index rule, find_tag, key= path, raw Python values and parametric hashes); field tables "
@@ -85,7 +96,8 @@ TECHNIQUE = ("Lean 4 proof over model (dict as association list = hash table und
              "encoder and on user-defined encoders; eq/hash monitor on the real classes; purity / list-vs-tuple / reuse "
              "probes on every call; construction-path products (RawTerm model of the extras), call styles against the "
              "documented signatures (bindCall), histories through harness/history.py judged per step by the pure model "
-             "(memo-table and memoised-hash theorems), size-threshold and float32-boundary sweeps")
+             "(memo-table and memoised-hash theorems), size-threshold and float32-boundary sweeps; object-identity layouts "
+             "(which Term / Tag objects carry the content) on the encoder and the three encodings, judged by the content model")
 RULE = ("exhaustive vocabularies (<= 4 distinct tags) x tag / predicted-tag lists over an adversarial pool (terms sharing "
         "name or label, optional-field and extra-field variants, empty values, case / blank / Unicode-composition variants "
         "of values), random longer ones, every encoder table of 3 tags into {skip, 0..K-1} (K <= 2) x tag lists, all "
@@ -102,7 +114,11 @@ RULE = ("exhaustive vocabularies (<= 4 distinct tags) x tag / predicted-tag list
         "vocabularies and lists of 15..17 / 255..257 / 1023..1025 elements; float32 ties, denormals and their binary64 "
         "neighbours; scores as int / bool / numpy scalars; vocabularies as list / tuple / deque / object array / user "
         "Sequence; keyword, positional and mixed calls; encoders whose num_classes is an instance / class attribute, a "
-        "property, a slot, a namedtuple or dataclass field; one uuid shared across kinds")
+        "property, a slot, a namedtuple or dataclass field; one uuid shared across kinds; follow-up (wave 5): every vocabulary "
+        "of <= 2 (<= 3 thorough) of 8 tags over 4 terms x 45 identity patterns (equal terms shared / separate / mixed x probe "
+        "term object fresh / own / another tag's x probe new / model_copy(update) / same object / copy / subclass), the "
+        "class of the vocabulary tags cycling over Tag / subclass / mixed, and random vocabularies x lists with a pattern "
+        "chosen independently per element for classification / multilabel / prediction; realised identities tallied")
 TRUSTED = ["CPython dict, tuple, str, float and UUID hashing/equality",
            "pydantic-core construction of the data objects (observed through __dict__ / __pydantic_extra__)",
            "numpy float32 assignment (value recomputed with struct.pack('f') and monitored as a contract)",
@@ -127,7 +143,9 @@ NOT_COMPARED = ["vocabularies with repeated tags (the property quantifies over d
                 "`holdsPrediction` (entry is one of that tag's scores) is required there",
                 "encoder indices outside [0, n) and decode outside [0, n): compared (numpy / list index rule) but not fixed "
                 "by the property - a disagreement is a broken correspondence, not by itself a violation",
-                "error messages; hash values themselves (only their equality); dtype of the multilabel vector"]
+                "error messages; hash values themselves (only their equality); dtype of the multilabel vector",
+                "pydantic's == between a Tag and an instance of a subclass of Tag with the same term and value (False): the "
+                "encoder is expected to treat them alike (content), as its (term, value) key does"]
 
 # ------------------------------------------------------------------ descriptors <-> real objects
 TERM_FIELDS = ["label", "definition", "name", "uri", "type_of_term", "comment", "see", "subproperty_of",
